@@ -79,6 +79,18 @@ def check_chain(chk, rule, name, position, chain, node):
             input="text containing %s" % sorted(missing),
         )
         ok = False
+    extra = set(escaped) - need
+    if extra:
+        chk.bad(
+            rule,
+            name,
+            "%s: the character(s) %s are escaped although the line protocol defines no escape for them at this position (only %s): "
+            "a standard parser keeps the backslash, so the decoded text differs from the reported one" % (position, sorted(extra), sorted(need)),
+            node=node,
+            stmt="%s over-escapes %s" % (position, sorted(extra)),
+            input="text containing %s" % sorted(extra),
+        )
+        ok = False
     if position == "string field value" and '"' in escaped and "\\" in escaped and escaped["\\"] > escaped['"']:
         chk.bad(rule, name, "string field value: the quote is escaped before the backslash, so the escaping backslash is doubled afterwards", node=node, stmt="escape-order")
         ok = False
@@ -420,6 +432,17 @@ def line_formatter_rules(chk):
                     chk.bad(rule, name, "default tags override the record's values (merge order)", node=fmt.node, stmt="tags-order")
                     ok = False
                     tags_ok = True
+            if not tags_ok and tags == ("attr", SELF, "_default_tags"):
+                muts = [e for e in evs if (e[0] == "store" and e[1][0] == "sub" and e[1][1] == tags) or (e[0] == "call" and e[1][1][0] == "attr" and e[1][1][1] == tags and e[1][1][2] in ("update", "setdefault", "pop", "clear"))]
+                chk.bad(
+                    rule,
+                    name,
+                    "the formatter's shared default-tag mapping itself is used as the record's tags%s: tag values of one record leak into the defaults of all later records" % (" and written to" if muts else ""),
+                    node=fmt.node,
+                    stmt="default-tags-not-copied",
+                )
+                ok = False
+                tags_ok = True
             if not tags_ok:
                 # known-bad: record first, defaults applied over it
                 if tags is not None and any(e[1][2] and show(e[1][2][0]).endswith("_default_tags") for e in upd):
